@@ -1,5 +1,6 @@
 //! Shared generators (proptest strategies).
 pub mod nesting;
+pub mod flow_frag;
 pub mod soup;
 pub mod util;
 pub mod paths;
